@@ -99,9 +99,9 @@ if missing: print("(* WARNING unused keys: %s *)"%missing, file=sys.stderr)
 out=[]
 def emit(name,l,pin):
     out.append("Definition %s : list (string * string * nat * string * list string) := ["%name)
-    out.append(";\n".join("  (%s, %s, %d%%nat, %s, [%s])"%(q(a),q(b),c,q(d),"; ".join(q(h) for h in (fps.get(a,[]) if pin and b in PINNED_KINDS else []))) for a,b,c,d in l))
+    out.append(";\n".join("  (%s, %s, %d%%nat, %s, [%s])"%(q(a),q(b),c,q(d),"; ".join(q(h) for h in fps.get(a,[]))) for a,b,c,d in l))
     out.append("].")
-emit("covered_table",cov,False)
+emit("covered_table",cov,True)
 emit("audit_table",aud,True)
 text="\n".join(out)+"\n"
 if splice:
